@@ -127,7 +127,7 @@ def shrink(prop, version, kind, persist, hist, key):
     return cur
 
 
-def run_family(prop, tier, seed, driver, cfg, relevant):
+def run_family(prop, tier, seed, driver, cfg, relevant, extra_oracle=None):
     """relevant(hist, obs_lines) -> bool: did the history reach a branch this property is about."""
     res = Result()
     cases = make_cases(prop, tier, seed, cfg)
@@ -149,12 +149,15 @@ def run_family(prop, tier, seed, driver, cfg, relevant):
             res.count("op:" + op[0])
         if relevant(hist, impl_lines):
             res.distinct.add(digest([version, kind, persist, [gw.op_wire(o) for o in hist]]))
+        if extra_oracle is not None:
+            fails = list(fails) + [dict(f, prop=prop) for f in extra_oracle(hist, impl_lines)]
         for f in fails:
             if f["prop"] != prop:
                 continue
             res.count("oracle:" + f["key"]["kind"])
             if len([x for x in res.oracle_failures if x["key"] == f["key"]]) == 0:
-                small = shrink(prop, version, kind, persist, hist[: f["at"] + 1], f["key"])
+                small = hist[: f["at"] + 1] if f.get("noshrink") else \
+                    shrink(prop, version, kind, persist, hist[: f["at"] + 1], f["key"])
                 res.oracle_failures.append({
                     "key": f["key"], "what": f["what"][:300],
                     "replay": {"version": version, "kind": kind, "persist": persist,
